@@ -115,7 +115,17 @@ class FixedMatrix
 		    boost::python::throw_error_already_set();
             }
         } else if (PyInt_Check(index)) {
-            Py_ssize_t i = convert_index(PyInt_AS_LONG(index));
+            //  convert without narrowing: an index beyond the range of int
+            // (or of Py_ssize_t) is out of range, not row (index mod 2^32)
+            Py_ssize_t pyIndex = PyInt_AsSsize_t(index);
+            if (pyIndex == -1 && PyErr_Occurred())
+                boost::python::throw_error_already_set();
+            if (pyIndex >= _rows || pyIndex < -Py_ssize_t(_rows))
+            {
+                PyErr_SetString(PyExc_IndexError, "Index out of range");
+                boost::python::throw_error_already_set();
+            }
+            Py_ssize_t i = convert_index(int(pyIndex));
             start = i; end = i+1; step = 1; slicelength = 1;
         } else {
             PyErr_SetString(PyExc_TypeError, "Object is not a slice");
